@@ -10,6 +10,10 @@ package calc
 //   tiers that exist: ascending order, unset order last, then name;
 //   inside a tier: ascending order, unset order last, then name;
 //   ingress / egress lists by the policy's types (no types = both);
+//   host endpoints additionally: untracked tiers (doNotTrack policies), pre-DNAT tiers (preDNAT
+//     policies, ingress only) and forward tiers (normal policies with applyOnForward); a tier appears in
+//     a list iff it has at least one ingress or egress policy there; untracked / pre-DNAT policies are
+//     host-endpoint policies and are not listed on workload endpoints;
 //   active policies in the dataplane = exactly the union of the matches of the local endpoints.
 // Under-specified by the statement, therefore accepted as the code does it: where a tier that has no
 // Tier resource is placed, and its default action. Membership and intra-tier order are still checked
@@ -123,7 +127,22 @@ func (w *c03World) effectiveLabels(ep c03EP) map[string]string {
 
 // expected returns the tier lists for an endpoint: those of existing tiers in order, and those of
 // tiers without a Tier resource by name.
-func (w *c03World) expected(ep c03EP) (ordered []c03Tier, missing map[string]c03Tier, matched []string) {
+// c03InList says whether a policy belongs to the given per-endpoint list kind: "normal" (neither
+// untracked nor pre-DNAT), "untracked" (doNotTrack), "prednat" (preDNAT, ingress only), "forward"
+// (normal policies with applyOnForward; host endpoints only).
+func c03InList(p *model.Policy, kind string) bool {
+	switch kind {
+	case "untracked":
+		return p.DoNotTrack
+	case "prednat":
+		return !p.DoNotTrack && p.PreDNAT
+	case "forward":
+		return !p.DoNotTrack && !p.PreDNAT && p.ApplyOnForward
+	}
+	return !p.DoNotTrack && !p.PreDNAT
+}
+
+func (w *c03World) expected(ep c03EP, kind string) (ordered []c03Tier, missing map[string]c03Tier, matched []string) {
 	eff := w.effectiveLabels(ep)
 	byTier := map[string][]c03Pol{}
 	for _, p := range w.pols {
@@ -132,8 +151,10 @@ func (w *c03World) expected(ep c03EP) (ordered []c03Tier, missing map[string]c03
 			panic(fmt.Sprintf("harness bug: valid policy with unparsable selector %q", p.pol.Selector))
 		}
 		if sel.Evaluate(eff) {
-			byTier[p.pol.Tier] = append(byTier[p.pol.Tier], p)
 			matched = append(matched, p.id)
+			if c03InList(p.pol, kind) {
+				byTier[p.pol.Tier] = append(byTier[p.pol.Tier], p)
+			}
 		}
 	}
 	mk := func(name string, ps []c03Pol) c03Tier {
@@ -158,7 +179,7 @@ func (w *c03World) expected(ep c03EP) (ordered []c03Tier, missing map[string]c03
 			if in {
 				t.Ingress = append(t.Ingress, p.id)
 			}
-			if eg {
+			if eg && kind != "prednat" {
 				t.Egress = append(t.Egress, p.id)
 			}
 		}
@@ -178,12 +199,16 @@ func (w *c03World) expected(ep c03EP) (ordered []c03Tier, missing map[string]c03
 		return less
 	})
 	for _, n := range names {
-		ordered = append(ordered, mk(n, byTier[n]))
+		if t := mk(n, byTier[n]); len(t.Ingress)+len(t.Egress) > 0 {
+			ordered = append(ordered, t)
+		}
 	}
 	missing = map[string]c03Tier{}
 	for n, ps := range byTier {
 		if _, ok := w.tiers[n]; !ok {
-			missing[n] = mk(n, ps)
+			if t := mk(n, ps); len(t.Ingress)+len(t.Egress) > 0 {
+				missing[n] = t
+			}
 		}
 	}
 	return
@@ -213,7 +238,7 @@ func c03StaleMetadataExplains(s *vcState, w *c03World, ep c03EP, got []c03Tier) 
 				}
 				w2.pols = append(w2.pols, p)
 			}
-			ordered, _, _ := w2.expected(ep)
+			ordered, _, _ := w2.expected(ep, "normal")
 			if fmt.Sprint(ordered) == fmt.Sprint(got) {
 				return true
 			}
@@ -246,84 +271,95 @@ func c03Check(x *vcRun, s *vcState, hist []vcEv) []hbfs.Fail {
 	dp := s.g.dp
 	union := map[string]bool{}
 	for id, ep := range w.localEPs {
-		var emitted []c03Tier
-		var other int
+		type listT struct {
+			name, kind string
+			emitted    []c03Tier
+		}
+		var lists []listT
 		if strings.HasPrefix(id, "wep ") {
 			e := dp.WEPs[strings.TrimPrefix(id, "wep ")]
 			if e == nil {
 				add("local-endpoint-not-sent", "local endpoint %s is valid in the datastore but the dataplane does not have it", id)
 				continue
 			}
-			emitted = c03Emitted(e.Tiers)
+			lists = []listT{{"tiers", "normal", c03Emitted(e.Tiers)}}
 		} else {
 			e := dp.HEPs[strings.TrimPrefix(id, "hep ")]
 			if e == nil {
 				add("local-endpoint-not-sent", "local endpoint %s is valid in the datastore but the dataplane does not have it", id)
 				continue
 			}
-			emitted = c03Emitted(e.Tiers)
-			other = len(e.UntrackedTiers) + len(e.PreDnatTiers) + len(e.ForwardTiers)
-		}
-		if other != 0 {
-			add("unexpected-special-tier-list", "%s has untracked/pre-DNAT/forward tiers although no policy asks for them", id)
-		}
-		ordered, missing, matched := w.expected(ep)
-		for _, m := range matched {
-			union[m] = true
-		}
-		var gotOrdered []c03Tier
-		seen := map[string]bool{}
-		for _, t := range emitted {
-			if seen[t.Name] {
-				add("tier-listed-twice", "%s lists tier %s twice: %v", id, t.Name, emitted)
-			}
-			seen[t.Name] = true
-			if _, exists := w.tiers[t.Name]; exists {
-				gotOrdered = append(gotOrdered, t)
-				continue
-			}
-			want, ok := missing[t.Name]
-			if !ok {
-				add("unexpected-tier", "%s lists tier %s which has no matching policy: emitted %v", id, t.Name, emitted)
-				continue
-			}
-			if fmt.Sprint(want) != fmt.Sprint(t) {
-				add("policies-of-tierless-tier", "%s, tier %s (no Tier resource): emitted %v, want %v", id, t.Name, t, want)
+			lists = []listT{
+				{"tiers", "normal", c03Emitted(e.Tiers)},
+				{"untrackedTiers", "untracked", c03Emitted(e.UntrackedTiers)},
+				{"preDnatTiers", "prednat", c03Emitted(e.PreDnatTiers)},
+				{"forwardTiers", "forward", c03Emitted(e.ForwardTiers)},
 			}
 		}
-		for n, want := range missing {
-			if !seen[n] {
-				add("matching-policy-not-listed", "%s: policies %v match but their tier %s (no Tier resource) is not listed: emitted %v", id, want, n, emitted)
+		for _, l := range lists {
+			emitted := l.emitted
+			sfx := ""
+			if l.kind != "normal" {
+				sfx = ":" + l.name
 			}
-		}
-		if fmt.Sprint(gotOrdered) != fmt.Sprint(ordered) {
-			key := "policy-list"
-			// classify: membership vs order
-			flat := func(ts []c03Tier) string {
-				var all []string
-				for _, t := range ts {
-					for _, p := range t.Ingress {
-						all = append(all, t.Name+"/in/"+p)
-					}
-					for _, p := range t.Egress {
-						all = append(all, t.Name+"/eg/"+p)
-					}
+			ordered, missing, matched := w.expected(ep, l.kind)
+			for _, m := range matched {
+				union[m] = true
+			}
+			var gotOrdered []c03Tier
+			seen := map[string]bool{}
+			for _, t := range emitted {
+				if seen[t.Name] {
+					add("tier-listed-twice"+sfx, "%s %s lists tier %s twice: %v", id, l.name, t.Name, emitted)
 				}
-				sort.Strings(all)
-				return strings.Join(all, ",")
+				seen[t.Name] = true
+				if _, exists := w.tiers[t.Name]; exists {
+					gotOrdered = append(gotOrdered, t)
+					continue
+				}
+				want, ok := missing[t.Name]
+				if !ok {
+					add("unexpected-tier"+sfx, "%s %s lists tier %s which has no matching policy: emitted %v", id, l.name, t.Name, emitted)
+					continue
+				}
+				if fmt.Sprint(want) != fmt.Sprint(t) {
+					add("policies-of-tierless-tier"+sfx, "%s %s, tier %s (no Tier resource): emitted %v, want %v", id, l.name, t.Name, t, want)
+				}
 			}
-			if flat(gotOrdered) == flat(ordered) {
-				key = "policy-order"
-			} else {
-				key = "policy-membership"
+			for n, want := range missing {
+				if !seen[n] {
+					add("matching-policy-not-listed"+sfx, "%s %s: policies %v match but their tier %s (no Tier resource) is not listed: emitted %v", id, l.name, want, n, emitted)
+				}
 			}
-			// Diagnosis for a more specific key: is the emitted list what the reference gives when ONE
-			// policy keeps its current selector but has the order/types/tier of another (earlier)
-			// variant of itself? Then the graph is using stale metadata for that policy.
-			if c03StaleMetadataExplains(s, w, ep, gotOrdered) {
-				key = "stale-policy-metadata"
+			if fmt.Sprint(gotOrdered) != fmt.Sprint(ordered) {
+				key := "policy-list"
+				// classify: membership vs order
+				flat := func(ts []c03Tier) string {
+					var all []string
+					for _, t := range ts {
+						for _, p := range t.Ingress {
+							all = append(all, t.Name+"/in/"+p)
+						}
+						for _, p := range t.Egress {
+							all = append(all, t.Name+"/eg/"+p)
+						}
+					}
+					sort.Strings(all)
+					return strings.Join(all, ",")
+				}
+				if flat(gotOrdered) == flat(ordered) {
+					key = "policy-order"
+				} else {
+					key = "policy-membership"
+				}
+				// Diagnosis for a more specific key: is the emitted list what the reference gives when ONE
+				// policy keeps its current selector but has the order/types/tier of another (earlier)
+				// variant of itself? Then the graph is using stale metadata for that policy.
+				if l.kind == "normal" && c03StaleMetadataExplains(s, w, ep, gotOrdered) {
+					key = "stale-policy-metadata"
+				}
+				add(key+sfx, "%s %s (effective labels %v): emitted tiers %v, reference %v", id, l.name, w.effectiveLabels(ep), gotOrdered, ordered)
 			}
-			add(key, "%s (effective labels %v): emitted tiers %v, reference %v", id, w.effectiveLabels(ep), gotOrdered, ordered)
 		}
 	}
 	// endpoints in the dataplane that are not valid local endpoints
